@@ -244,9 +244,25 @@ fn run_one(input: &Input) -> Value {
                     }
                 }
                 let in_prefix = in_dir.display().to_string();
+                // what the build wrote: the materialised "structures and tables it asks for"
+                fn dir_bytes(d: &std::path::Path) -> u64 {
+                    let mut n = 0;
+                    if let Ok(rd) = std::fs::read_dir(d) {
+                        for e in rd.flatten() {
+                            let p = e.path();
+                            if p.is_dir() {
+                                n += dir_bytes(&p);
+                            } else {
+                                n += e.metadata().map(|m| m.len()).unwrap_or(0);
+                            }
+                        }
+                    }
+                    n
+                }
+                let written = dir_bytes(&out_dir);
                 match r {
                     Err(p) => json!({"outcome": "panic", "msg": p}),
-                    Ok(Ok(())) => json!({"outcome": "ok", "unparsable_file": first_bad.map(|b| b.0), "non_utf8": any_non_utf8}),
+                    Ok(Ok(())) => json!({"outcome": "ok", "unparsable_file": first_bad.map(|b| b.0), "non_utf8": any_non_utf8, "output_bytes": written}),
                     Ok(Err(e)) => json!({"outcome": "err", "msg": drive::chain_msg(&e).replace(&in_prefix, "<in>"), "own_parse": first_bad.map(|(f, l, c)| json!([f, l, c])), "non_utf8": any_non_utf8}),
                 }
             }
@@ -302,11 +318,25 @@ fn run_one(input: &Input) -> Value {
     });
     let mut res = res;
     res["allocated"] = json!(allocated);
-    res["budget"] = json!(budget(bytes));
+    // token streams and pretty-printing cost a few hundred bytes of (cumulative) allocation per
+    // byte of output: the budget grows with what was written, the hard cap on live memory does not
+    let output = res["output_bytes"].as_u64().unwrap_or(0);
+    res["budget"] = json!(budget(bytes) + 1024 * output);
     res
 }
 
 /// `pvh c12-worker <shard> <start>`
+/// CPU seconds one input may consume in the worker before it is given up as not terminating
+/// in time proportional to its size (typical inputs need milliseconds).
+pub const CPU_LIMIT_SECS: f64 = 30.0;
+
+fn process_cpu_secs() -> f64 {
+    let mut ts = libc::timespec { tv_sec: 0, tv_nsec: 0 };
+    // SAFETY: plain syscall writing into a local
+    unsafe { libc::clock_gettime(libc::CLOCK_PROCESS_CPUTIME_ID, &mut ts) };
+    ts.tv_sec as f64 + ts.tv_nsec as f64 / 1e9
+}
+
 pub fn worker(args: &[String]) -> i32 {
     let Ok(f) = std::fs::File::open(&args[0]) else { return 3 };
     let start: usize = args.get(1).and_then(|s| s.parse().ok()).unwrap_or(0);
@@ -325,6 +355,19 @@ pub fn worker(args: &[String]) -> i32 {
         // the real tool runs on a main thread with the default 8 MiB stack
         let inp = input.clone();
         let h = std::thread::Builder::new().stack_size(8 << 20).spawn(move || run_one(&inp)).unwrap();
+        // CPU time, not wall-clock time: it does not depend on how busy the machine is. Inputs
+        // of a few kilobytes take milliseconds; one that burns CPU_LIMIT_SECS is not coming back.
+        let cpu0 = process_cpu_secs();
+        while !h.is_finished() {
+            std::thread::sleep(std::time::Duration::from_millis(20));
+            let used = process_cpu_secs() - cpu0;
+            if used > CPU_LIMIT_SECS {
+                let mut l = so.lock();
+                let _ = writeln!(l, "STUCK {k} {used:.1}");
+                let _ = l.flush();
+                std::process::exit(97);
+            }
+        }
         let v = h.join().unwrap_or_else(|_| json!({"outcome": "panic", "msg": "worker thread panicked outside the guard"}));
         let mut l = so.lock();
         let _ = writeln!(l, "DONE {k} {}", v);
@@ -855,6 +898,13 @@ pub fn corpus() -> Vec<(String, Input)> {
         ("corpus/index-no-args".into(), t("type T { vftable { #[index()] fn f(&self); } }")),
         ("corpus/size-string".into(), t("#[size(\"4\")] type T { x: u32 }")),
         ("corpus/raw-ident-clash-rename".into(), t("type A { x: u32 } impl A { #[address(0x10)] pub fn r#fn(&self); } type B { y: u32 } impl B { #[address(0x20)] pub fn r#fn(&self); } type D { #[base] a: A, #[base] b: B }")),
+        ("corpus/diamond-tower-10".into(), t(&{
+            let mut s = String::from("type A0 { }\n");
+            for i in 1..=10 {
+                s.push_str(&format!("type A{i} {{ #[base] a: A{}, #[base] b: A{} }}\n", i - 1, i - 1));
+            }
+            s
+        })),
         ("corpus/two-impl-blocks".into(), t("type T { x: u32 } impl T { #[address(0x10)] pub fn a(&self); } impl T { #[address(0x20)] pub fn b(&self); }")),
         ("corpus/api-absolute-path".into(), Input::Api { ptrw: 8, ops: vec![ApiOp::AddFile { base: "in".into(), path: "/dev/shm/pvh-c12-corpus-abs.pyxis".into(), content: "type A { a: u8 }".into() }, ApiOp::BuildAndWrite { out: "out".into(), out_is_file: false }] }),
         ("corpus/api-empty-path".into(), Input::Api { ptrw: 8, ops: vec![ApiOp::AddModule { path: "".into(), text: "type A { a: u8 }".into() }, ApiOp::BuildAndWrite { out: "out".into(), out_is_file: false }] }),
@@ -885,10 +935,13 @@ fn run_shard(shard: &std::path::Path, n: usize, per_input_timeout: std::time::Du
         let budget = per_input_timeout * ((n - start) as u32).min(200) + std::time::Duration::from_secs(30);
         let r = crate::probe::run_tool(&mut cmd, budget);
         let mut open: Option<usize> = None;
+        let mut stuck: Option<String> = None;
         let mut last_done: Option<usize> = None;
         for line in r.stdout.lines() {
             if let Some(k) = line.strip_prefix("START ") {
                 open = k.trim().parse().ok();
+            } else if let Some(rest) = line.strip_prefix("STUCK ") {
+                stuck = rest.split(' ').nth(1).map(|c| c.to_string());
             } else if let Some(rest) = line.strip_prefix("DONE ") {
                 let mut it = rest.splitn(2, ' ');
                 let k: usize = it.next().and_then(|x| x.parse().ok()).unwrap_or(usize::MAX);
@@ -903,7 +956,9 @@ fn run_shard(shard: &std::path::Path, n: usize, per_input_timeout: std::time::Du
         }
         match open {
             Some(k) => {
-                let why = if r.timed_out {
+                let why = if let Some(cpu) = &stuck {
+                    format!("TIME-BUDGET {cpu}")
+                } else if r.timed_out {
                     "WATCHDOG".to_string()
                 } else if r.stderr.contains("ALLOC-CAP-EXCEEDED") {
                     "ALLOC-CAP-EXCEEDED".to_string()
@@ -932,6 +987,8 @@ fn judge(kind: &str, input: &Input, r: &WorkerResult) -> Vec<(String, String)> {
     if let Some(why) = &r.died {
         if why == "WATCHDOG" {
             bad.push(("C12/__inconclusive".into(), format!("watchdog fired on a {kind} input")));
+        } else if let Some(cpu) = why.strip_prefix("TIME-BUDGET ") {
+            bad.push((format!("C12/time-budget/{kind}"), format!("the build consumed {cpu} s of CPU time on this input without returning (limit {CPU_LIMIT_SECS} s; inputs of this size take milliseconds)")));
         } else if why.starts_with("ALLOC-CAP") {
             bad.push((format!("C12/unbounded-memory/{kind}"), "allocation grew past the 1 GiB hard cap (worker aborted)".into()));
         } else if why.starts_with("stack overflow") {
